@@ -106,8 +106,11 @@ def relation_names(capellambse, cls) -> list[str]:
 
 
 def object_digest(capellambse, mdl, elem, with_backrefs: bool) -> dict:
-    obj = mdl.by_uuid(elem.get("id"))
-    d: dict = {}
+    try:
+        obj = mdl.by_uuid(elem.get("id"))
+    except Exception as e:  # noqa: BLE001  (never crash on what the implementation does: it is an observation)
+        return {"by_uuid": f"!{type(e).__name__}"}
+    d: dict = {"by_uuid": "ok"}
     try:
         d["parent"] = canon(obj.parent)
     except AttributeError as e:
@@ -201,7 +204,10 @@ def loader_digest(mdl, helpers, elem) -> dict:
 
 
 def search_digest(mdl, elem, xtypes) -> dict:
-    obj = mdl.by_uuid(elem.get("id"))
+    try:
+        obj = mdl.by_uuid(elem.get("id"))
+    except Exception as e:  # noqa: BLE001
+        return {"by_uuid": f"!{type(e).__name__}"}
     d = {}
     for xt in xtypes:
         try:
@@ -268,6 +274,10 @@ def compare_layouts(ctx: Ctx, out: Outcome, spec: dict, mono, frag, lay, objs_bu
         if dm != df:
             keys = [k for k in dm if dm.get(k) != df.get(k)] + [k for k in df if k not in dm]
             k = keys[0]
+            if k == "by_uuid":
+                out.find(f"api|raises:{str(df.get(k)).lstrip('!')}|by_uuid", f"by_uuid({i}): monolithic={dm.get(k)} fragmented={df.get(k)}",
+                         {"kind": "object", "layout": spec, "id": i, "what": k})
+                continue
             cls = "parent" if k == "parent" else ("layer" if k == "layer" else ("find_references" if k == "find_references" else "relation"))
             if cls == "find_references":
                 # which referrers differ? if each of them holds a placeholder among its direct children the cause is
@@ -280,7 +290,10 @@ def compare_layouts(ctx: Ctx, out: Outcome, spec: dict, mono, frag, lay, objs_bu
                          {"kind": "object", "layout": spec, "id": i, "what": k})
                 continue
             if cls == "relation":
-                acc = getattr(type(mono.by_uuid(i)), k[1:], None)
+                try:
+                    acc = getattr(type(mono.by_uuid(i)), k[1:], None)
+                except Exception:  # noqa: BLE001
+                    acc = None
                 cls += "-differs|" + type(acc).__name__ + "|" + raw_read_cause(capellambse, els_m, roots)
                 out.find(f"api|{cls}", f"{els_m[i].get(XSI_T)} {i}: {k} monolithic={str(dm.get(k))[:6000]} fragmented={str(df.get(k))[:6000]}",
                          {"kind": "object", "layout": spec, "id": i, "what": k})
@@ -293,7 +306,7 @@ def compare_layouts(ctx: Ctx, out: Outcome, spec: dict, mono, frag, lay, objs_bu
         lf = loader_digest(frag, helpers, els_f[i])
         out.case(("nav", tag, i), None, nontrivial=below_cut(i))
         if lm != lf:
-            k = [k for k in lm if lm.get(k) != lf.get(k)][0]
+            k = [k for k in list(lm) + list(lf) if lm.get(k) != lf.get(k)][0]
             out.find(f"loader|{k}-differs", f"{i}: {k} monolithic={str(lm.get(k))[:120]} fragmented={str(lf.get(k))[:120]}",
                      {"kind": "nav", "layout": spec, "id": i, "what": k})
         try:
@@ -324,9 +337,13 @@ def compare_layouts(ctx: Ctx, out: Outcome, spec: dict, mono, frag, lay, objs_bu
         sf = search_digest(frag, els_f[i], SEARCH_XT)
         out.case(("search", tag, i), None, nontrivial=True)
         if sm != sf:
-            k = [k for k in sm if sm.get(k) != sf.get(k)][0]
-            nm = len(sm[k]) if isinstance(sm[k], list) else sm[k]
-            nf = len(sf[k]) if isinstance(sf[k], list) else sf[k]
+            k = "by_uuid" if ("by_uuid" in sm or "by_uuid" in sf) else [k for k in list(sm) + list(sf) if sm.get(k) != sf.get(k)][0]
+            if k == "by_uuid":
+                out.find(f"api|raises:{str(sf.get(k) or sm.get(k)).lstrip('!')}|by_uuid", f"by_uuid({i}): monolithic={sm.get(k, 'ok')} fragmented={sf.get(k, 'ok')}",
+                         {"kind": "search", "layout": spec, "id": i, "xtype": None})
+                continue
+            nm = len(sm[k]) if isinstance(sm.get(k), list) else sm.get(k)
+            nf = len(sf[k]) if isinstance(sf.get(k), list) else sf.get(k)
             out.find("api|search-below-differs", f"search({k}, below={i}): monolithic {nm} results, fragmented {nf}",
                      {"kind": "search", "layout": spec, "id": i, "xtype": k})
 
@@ -552,8 +569,11 @@ def edits_and_save(ctx: Ctx, out: Outcome, spec: dict, mono, frag, lay_m, lay_f,
     expected = expected_owner(mono, lay_f)
     # (1) still in memory: navigation, relations, searches and back-references after the edit history
     o1 = Outcome()
-    compare_layouts(ctx, o1, spec, mono, frag, _with_owner(lay_f, expected), objs_budget=40, with_backrefs=False,
-                    tag=tag + "+edited", extra_ids=[i for st in script for i in [st.get("id"), st.get("to"), st.get("parent")] if i])
+    try:
+        compare_layouts(ctx, o1, spec, mono, frag, _with_owner(lay_f, expected), objs_budget=40, with_backrefs=False,
+                        tag=tag + "+edited", extra_ids=[i for st in script for i in [st.get("id"), st.get("to"), st.get("parent")] if i])
+    except Exception as e:  # noqa: BLE001
+        o1.find(f"api|raises:{type(e).__name__}", f"observing the edited models raised {type(e).__name__}: {e}"[:240], case)
     out.evaluations += o1.evaluations
     out.distinct |= o1.distinct
     for f in o1.findings:
@@ -579,10 +599,17 @@ def edits_and_save(ctx: Ctx, out: Outcome, spec: dict, mono, frag, lay_m, lay_f,
         out.find("save|element-not-in-owning-fragment", f"after save {len(wrong)} elements are in the wrong file, e.g. {i}: in {got}, owner {want}", case)
     if extra:
         out.find("save|unexpected-elements", f"{len(extra)} unexpected elements after save, e.g. {next(iter(extra.items()))}", case)
-    mono2 = capellambse.MelodyModel(lay_m.aird, resources=dict(lay_m.resources))
-    frag2 = capellambse.MelodyModel(lay_f.aird, resources=dict(lay_f.resources))
+    try:
+        mono2 = capellambse.MelodyModel(lay_m.aird, resources=dict(lay_m.resources))
+        frag2 = capellambse.MelodyModel(lay_f.aird, resources=dict(lay_f.resources))
+    except Exception as e:  # noqa: BLE001
+        out.find(f"after-edits|load|raises:{type(e).__name__}", f"reloading after save raised {type(e).__name__}: {e}"[:240], case)
+        return
     o2 = Outcome()
-    compare_layouts(ctx, o2, spec, mono2, frag2, _with_owner(lay_f, expected), objs_budget=40, with_backrefs=False, tag=tag + "+edits")
+    try:
+        compare_layouts(ctx, o2, spec, mono2, frag2, _with_owner(lay_f, expected), objs_budget=40, with_backrefs=False, tag=tag + "+edits")
+    except Exception as e:  # noqa: BLE001
+        o2.find(f"api|raises:{type(e).__name__}", f"observing the reloaded models raised {type(e).__name__}: {e}"[:240], case)
     out.evaluations += o2.evaluations
     out.distinct |= o2.distinct
     for f in o2.findings:
@@ -720,14 +747,29 @@ def run_layout(ctx: Ctx, out: Outcome, spec: dict, si: int, model_cases: list | 
     els0 = {e.get("id"): e for e in semantic_elements(mono)}
     cause = raw_read_cause(capellambse, els0, {r for r in lay_f.fragments.values() if r in els0})
     local = Outcome()
-    compare_layouts(ctx, local, spec, mono, frag, lay_f, objs_budget=ctx.pick(60 if small else 25, 400 if small else 60),
-                    with_backrefs=small, tag=tag)
+
+    def phase(name, fn):
+        """an exception of the implementation while it is being observed is a finding, never a crash of the check"""
+        try:
+            fn()
+        except common.InfraError:
+            raise
+        except Exception as e:  # noqa: BLE001
+            import traceback
+
+            where = [fr for fr in traceback.extract_tb(e.__traceback__) if "capellambse" in fr.filename]
+            at = f"{pathlib.Path(where[-1].filename).name}:{where[-1].name}" if where else "harness"
+            local.find(f"{name}|api|raises:{type(e).__name__}", f"{name}: {type(e).__name__}: {e} (in {at})"[:300],
+                       {"kind": "edits" if name != "compare" else "layout", "layout": spec})
+
+    phase("compare", lambda: compare_layouts(ctx, local, spec, mono, frag, lay_f, objs_budget=ctx.pick(60 if small else 25, 400 if small else 60),
+                                             with_backrefs=small, tag=tag))
     if model_cases is not None:
         from props import c06_model
 
-        c06_model.collect(ctx, out, spec, mono, frag, lay_f, model_cases, tag)
+        phase("model-tie", lambda: c06_model.collect(ctx, out, spec, mono, frag, lay_f, model_cases, tag))
     if spec.get("hints") or si % ctx.pick(3, 5) == 0:
-        edits_and_save(ctx, local, spec, mono, frag, lay_m, lay_f, tag)
+        phase("edits", lambda: edits_and_save(ctx, local, spec, mono, frag, lay_m, lay_f, tag))
     out.evaluations += local.evaluations
     out.distinct |= local.distinct
     for b, n in local.branches.items():
@@ -763,6 +805,13 @@ def run(ctx: Ctx) -> Outcome:
 
 
 def replay(ctx: Ctx, case: dict):
+    try:
+        return _replay(ctx, case)
+    except Exception as e:  # noqa: BLE001
+        return f"the implementation raised {type(e).__name__}: {e}"[:300]
+
+
+def _replay(ctx: Ctx, case: dict):
     import logging
 
     logging.disable(logging.WARNING)
@@ -772,7 +821,7 @@ def replay(ctx: Ctx, case: dict):
     o = Outcome()
     ctx.rng.seed(0)
     run_layout(ctx, o, spec, 0 if case.get("kind") == "edits" else 1, None)
-    kinds = {"object": "api|", "search": "api|search", "nav": "loader|", "edits": ("edit|", "save|", "after-edits|"), "layout": "load|"}
+    kinds = {"object": "api|", "search": "api|search", "nav": "loader|", "edits": ("edit|", "edits|", "edited|", "save|", "after-edits|"), "layout": ("load|", "compare|", "model-tie|")}
     want = kinds.get(case.get("kind"), "")
     for f in o.findings:
         if f.signature.startswith(want):
